@@ -14,6 +14,8 @@ Qed.
 
 Lemma is_true_and3 a b : is_true (and3 a b) = is_true a && is_true b.
 Proof. destruct a as [[|]|], b as [[|]|]; reflexivity. Qed.
+Lemma is_true_some b : is_true (Some b) = b.
+Proof. destruct b; reflexivity. Qed.
 Lemma is_true_or3 a b : is_true (or3 a b) = is_true a || is_true b.
 Proof. destruct a as [[|]|], b as [[|]|]; reflexivity. Qed.
 
@@ -231,7 +233,7 @@ Lemma visit_node_sq info e : forall depth,
   visit_node info e depth <> Panic /\ forall ie, visit_node info e depth = Ok (Some ie) -> has_sq ie.
 Proof.
   induction e as [c|op l r|neg t lo hi|neg t items|t|t|x IH|x IH|x IH|a IHa b IHb|a IHa b IHb|f t arg|k];
-    intro depth; rewrite visit_node_unfold; destruct (MAX_DEPTH <=? depth); try (split; [discriminate | intros ? [=]]).
+    intro depth; rewrite visit_node_unfold; destruct (MAX_DEPTH <=? depth); try solve [split; [discriminate | intros ? [=]]].
   - split; [discriminate|]. intros ie [= E]. exact (visit_column_sq _ _ _ E).
   - destruct op; try (split; [discriminate|]; intros ie [= E]; exact (visit_comparison_sq _ _ _ _ _ E)).
     destruct (negate_if_sq true (visit_comparison info ONotEq l r)) as [H1 [_ H3]];
@@ -243,20 +245,20 @@ Proof.
   - split; [discriminate|]. intros ie [= E]. exact (visit_is_bool_sq _ _ _ _ E).
   - split; [discriminate|]. intros ie [= E]. exact (visit_is_bool_sq _ _ _ _ E).
   - destruct (IH (depth + 1)) as [Hp Hs]. destruct (visit_node info x (depth + 1)) as [[node|]| |]; try congruence;
-      try (split; [discriminate | intros ? [=]]).
+      try solve [split; [discriminate | intros ? [=]]].
     destruct (maybe_not_sq node (Hs node eq_refl)) as [H1 [_ H3]]. split; assumption.
   - destruct (maybe_range info a b) as [re|] eqn:Er.
     + split; [discriminate|]. intros ie [= <-]. exact (maybe_range_sq _ _ _ _ Er).
     + destruct (IHa (depth + 1)) as [Hpa Hsa]. destruct (IHb (depth + 1)) as [Hpb Hsb].
-      destruct (visit_node info a (depth + 1)) as [lft| |]; try congruence; try (split; [discriminate | intros ? [=]]).
-      destruct (visit_node info b (depth + 1)) as [rgt| |]; try congruence; try (split; [discriminate | intros ? [=]]).
+      destruct (visit_node info a (depth + 1)) as [lft| |]; try congruence; try solve [split; [discriminate | intros ? [=]]].
+      destruct (visit_node info b (depth + 1)) as [rgt| |]; try congruence; try solve [split; [discriminate | intros ? [=]]].
       split; [discriminate|]. intros ie [= E]. destruct lft as [l|], rgt as [r|]; try discriminate; injection E as <-.
       * apply ie_and_sq. apply Hsa. reflexivity.
       * apply ie_refine_sq. apply Hsa. reflexivity.
       * apply ie_refine_sq. apply Hsb. reflexivity.
   - destruct (IHa (depth + 1)) as [Hpa Hsa]. destruct (IHb (depth + 1)) as [Hpb Hsb].
-    destruct (visit_node info a (depth + 1)) as [lft| |]; try congruence; try (split; [discriminate | intros ? [=]]).
-    destruct (visit_node info b (depth + 1)) as [rgt| |]; try congruence; try (split; [discriminate | intros ? [=]]).
+    destruct (visit_node info a (depth + 1)) as [lft| |]; try congruence; try solve [split; [discriminate | intros ? [=]]].
+    destruct (visit_node info b (depth + 1)) as [rgt| |]; try congruence; try solve [split; [discriminate | intros ? [=]]].
     split; [discriminate|]. intros ie [= E]. destruct lft as [l|], rgt as [r|]; try discriminate.
     exact (maybe_or_sq _ _ _ E).
   - split; [discriminate|]. intros ie [= E]. exact (visit_scalar_fn_sq _ _ _ _ _ E).
@@ -289,3 +291,389 @@ Proof.
     destruct (visit_node info a (depth + 1)); try congruence; try discriminate.
     destruct (visit_node info b (depth + 1)); try congruence; discriminate.
 Qed.
+
+(* ================================================================ the translation preserves the SQL meaning *)
+Lemma row_ok_bool info r c ci z : row_ok info r = true -> info c = Some ci -> ci_bool ci = true ->
+  val r c = Some z -> z = 0%Z \/ z = 1%Z.
+Proof.
+  intros Hok Hi Hb Hv. unfold row_ok in Hok. rewrite forallb_forall in Hok.
+  assert (Hin : In c (columns_of r)).
+  { unfold columns_of. apply in_map_iff. exists (N.to_nat c). split; [apply N2Nat.id|]. apply in_seq.
+    unfold val in Hv. destruct (Nat.lt_ge_cases (N.to_nat c) (length (rvals r))) as [Hl|Hl]; [lia|].
+    rewrite nth_overflow in Hv by exact Hl. discriminate. }
+  specialize (Hok c Hin). rewrite Hi, Hv, Hb in Hok. lia.
+Qed.
+
+Section Translate.
+Variable en : env.
+Variable info : index_info.
+
+Fixpoint struth (r : rowT) (e : sidx) : bool :=
+  match e with
+  | SNot a => negb (struth r a)
+  | SAnd a b => struth r a && struth r b
+  | SOr a b => struth r a || struth r b
+  | SQuery l => qmatch en (l_query l) (val r (l_col l))
+  end.
+
+Definition parsers_ok : Prop :=
+  forall c ci ip, info c = Some ci -> In ip (ci_parsers ci) -> parser_ok (snd ip) = true.
+Definition fn_definite : Prop := forall f x a, fn_sem en f (Some x) (Some a) <> None.
+
+Hypothesis Hpar : parsers_ok.
+Hypothesis Hfn : fn_definite.
+
+(* [t] is the SQL value of the visited expression on row r, [n3] tells whether a three-valued leaf on an
+   indexed column that is NULL in r occurs in it *)
+Definition sound_tv (r : rowT) (t : tv) (n3 : bool) (ie : iexp) : Prop :=
+  exists sq, scalar_query ie = Some sq /\
+    is_true t = struth r sq && opt_true en r (refine_expr ie) /\
+    (refine_expr ie = None -> s_needs_recheck sq = false -> n3 = false -> t = Some (struth r sq)).
+
+Lemma sound_tv_leaf r t n3 c i q rc :
+  is_true t = qmatch en q (val r c) ->
+  (rc = false -> n3 = false -> t = Some (qmatch en q (val r c))) ->
+  sound_tv r t n3 (index_query_with_recheck c i q rc).
+Proof.
+  intros HA HB. eexists. split; [reflexivity|]. cbn [refine_expr index_query_with_recheck opt_true struth l_query l_col s_needs_recheck l_recheck].
+  split; [rewrite andb_true_r; exact HA|]. intros _ Hrc Hn. apply HB; assumption.
+Qed.
+
+Lemma maybe_not_sound r t n3 n3' ie y :
+  sound_tv r t n3 ie -> n3 = false -> maybe_not ie = Ok (Some y) -> sound_tv r (not3 t) n3' y.
+Proof.
+  intros [sq [Hsq [HA HB]]] Hn. unfold maybe_not. rewrite Hsq.
+  destruct (refine_expr ie) eqn:Er; [discriminate|].
+  destruct (s_needs_recheck sq) eqn:Erc; [discriminate|]. intros [= <-].
+  specialize (HB eq_refl eq_refl Hn). subst t.
+  exists (SNot sq). split; [reflexivity|]. cbn [refine_expr opt_true struth not3 is_true s_needs_recheck].
+  split; [destruct (struth r sq); reflexivity|]. intros _ _ _. reflexivity.
+Qed.
+
+Lemma negate_if_false_sound r t n3 o y : (forall ie, o = Some ie -> sound_tv r t n3 ie) ->
+  negate_if false o = Ok (Some y) -> sound_tv r t n3 y.
+Proof. unfold negate_if. destruct o; [|discriminate]. intros H [= <-]. apply H. reflexivity. Qed.
+
+Lemma negate_if_true_sound r t n3 n3' o y : (forall ie, o = Some ie -> sound_tv r t n3 ie) -> n3 = false ->
+  negate_if true o = Ok (Some y) -> sound_tv r (not3 t) n3' y.
+Proof.
+  unfold negate_if. destruct o as [ie|]; [|discriminate]. intros H Hn E.
+  exact (maybe_not_sound r t n3 n3' ie y (H ie eq_refl) Hn E).
+Qed.
+
+Lemma col_null_indexed_col r c ci : info c = Some ci ->
+  col_null_indexed info r (TCol c) = match val r c with None => true | Some _ => false end.
+Proof. intro H. cbn [col_null_indexed]. rewrite H. reflexivity. Qed.
+
+(* ---- comparisons *)
+Lemma visit_comparison_noteq l rt : visit_comparison info ONotEq l rt = visit_comparison info OEq l rt.
+Proof. reflexivity. Qed.
+
+Lemma visit_comparison_sound r op l rt ie : op <> ONotEq ->
+  visit_comparison info op l rt = Some ie ->
+  sound_tv r (cmp3 op (eval_term en r l) (eval_term en r rt)) (col_null_indexed info r l) ie.
+Proof.
+  intros Hop. unfold visit_comparison.
+  destruct (maybe_indexed_column info l) as [[c ci]|] eqn:El; [|discriminate].
+  destruct (maybe_indexed_column_some _ _ _ _ El) as [-> Hi].
+  destruct (maybe_scalar rt) as [v|] eqn:Ev; [|discriminate]. rewrite (maybe_scalar_some _ _ Ev).
+  intro Ef. destruct (find_map_some _ _ _ Ef) as [ip [Hin Hp]].
+  specialize (Hpar c ci ip Hi Hin). rewrite (col_null_indexed_col r c ci Hi).
+  cbn [eval_term]. unfold p_visit_comparison in Hp. destruct (snd ip) as [rc|rc| |rc]; try discriminate.
+  - destruct v as [|z]; cbn [lit_is_null] in Hp; [discriminate|]. injection Hp as <-.
+    apply sound_tv_leaf; destruct (val r c) as [x|]; destruct op; try congruence;
+      cbn [cmp3 lit_val qmatch above below cmp_holds lit_eqb_val]; rewrite ?is_true_some; intros; try reflexivity; try discriminate;
+      rewrite ?andb_true_l, ?andb_true_r, ?(Z.eqb_sym x z); reflexivity.
+  - cbn [parser_ok] in Hpar. subst rc. destruct op; try congruence; try discriminate. injection Hp as <-.
+    apply sound_tv_leaf; [|discriminate].
+    destruct (val r c) as [x|], v as [|z]; cbn [cmp3 lit_val qmatch lit_eqb_val cmp_holds]; rewrite ?is_true_some; try reflexivity.
+    apply Z.eqb_sym.
+Qed.
+
+Lemma not3_cmp_eq a b : not3 (cmp3 OEq a b) = cmp3 ONotEq a b.
+Proof. destruct a, b; reflexivity. Qed.
+
+(* ---- BETWEEN *)
+Lemma p_visit_between_sound r c ci ip lv hv ie : info c = Some ci -> In ip (ci_parsers ci) ->
+  p_visit_between c ip (BIncl lv) (BIncl hv) = Some ie ->
+  sound_tv r (and3 (cmp3 OGtEq (val r c) (lit_val lv)) (cmp3 OLtEq (val r c) (lit_val hv)))
+           (match val r c with None => true | Some _ => false end) ie.
+Proof.
+  intros Hi Hin. unfold p_visit_between. destruct (snd ip) as [rc|rc| |rc]; try discriminate.
+  destruct lv as [|lz]; cbn [bnd_is_null lit_is_null]; [discriminate|].
+  destruct hv as [|hz]; cbn [bnd_is_null lit_is_null]; [discriminate|]. intros [= <-].
+  apply sound_tv_leaf; destruct (val r c) as [x|]; cbn [cmp3 lit_val and3 is_true qmatch above below cmp_holds];
+    intros; try reflexivity; try discriminate.
+  - destruct (lz <=? x)%Z, (x <=? hz)%Z; reflexivity.
+  - destruct (lz <=? x)%Z, (x <=? hz)%Z; reflexivity.
+Qed.
+
+(* ---- IN *)
+Lemma in3_true x vs : is_true (in3 x (map lit_val vs)) = existsb (fun l => lit_eqb_val l x) vs.
+Proof.
+  induction vs as [|v tl IH]; [reflexivity|]. destruct v as [|z]; cbn [map lit_val in3 existsb lit_eqb_val].
+  - rewrite <- IH. destruct (in3 x (map lit_val tl)) as [[|]|]; reflexivity.
+  - rewrite (Z.eqb_sym x z). destruct (z =? x)%Z; [reflexivity | exact IH].
+Qed.
+Lemma in3_definite x vs : existsb lit_is_null vs = false ->
+  in3 x (map lit_val vs) = Some (existsb (fun l => lit_eqb_val l x) vs).
+Proof.
+  induction vs as [|v tl IH]; [reflexivity|]. destruct v as [|z]; cbn [map lit_val in3 existsb lit_eqb_val lit_is_null orb].
+  - discriminate.
+  - intro H. rewrite (Z.eqb_sym x z). destruct (z =? x)%Z; [reflexivity | exact (IH H)].
+Qed.
+Lemma map_eval_lits r vs : map (eval_term en r) (map TLit vs) = map lit_val vs.
+Proof. rewrite map_map. reflexivity. Qed.
+
+Lemma p_visit_in_list_sound r c ci ip vs ie : info c = Some ci -> In ip (ci_parsers ci) ->
+  p_visit_in_list c ip vs = Some ie ->
+  sound_tv r (inlist3 (val r c) (map lit_val vs)) (match val r c with None => true | Some _ => false end) ie.
+Proof.
+  intros Hi Hin. specialize (Hpar c ci ip Hi Hin). unfold p_visit_in_list.
+  destruct (snd ip) as [rc|rc| |rc]; try discriminate.
+  - destruct (existsb lit_is_null vs) eqn:En; [discriminate|]. intros [= <-].
+    apply sound_tv_leaf; destruct (val r c) as [x|]; cbn [inlist3 qmatch is_true]; intros; try reflexivity; try discriminate.
+    + apply in3_true.
+    + apply in3_definite. exact En.
+  - cbn [parser_ok] in Hpar. subst rc. intros [= <-].
+    apply sound_tv_leaf; [|discriminate]. destruct (val r c) as [x|]; cbn [inlist3 qmatch is_true]; [apply in3_true | reflexivity].
+Qed.
+
+(* ---- IS NULL *)
+Lemma p_visit_is_null_sound r c ip n3 ie : p_visit_is_null c ip = Some ie ->
+  sound_tv r (Some (match val r c with None => true | Some _ => false end)) n3 ie.
+Proof.
+  unfold p_visit_is_null. destruct (snd ip) as [rc|rc| |rc]; try discriminate; intros [= <-];
+    apply sound_tv_leaf; destruct (val r c); intros; reflexivity.
+Qed.
+
+(* ---- Boolean columns *)
+Lemma p_visit_is_bool_sound r c ci ip (b : bool) ie : row_ok info r = true -> info c = Some ci -> ci_bool ci = true ->
+  p_visit_is_bool c ip b = Some ie ->
+  (* the two-valued tests `c IS TRUE` / `c IS FALSE` *)
+  (forall n3, sound_tv r (Some (match bool_of_val (val r c) with Some v => Bool.eqb v b | None => false end)) n3 ie) /\
+  (* the bare column (b = true): NULL when the column is NULL *)
+  (b = true -> sound_tv r (bool_of_val (val r c)) (match val r c with None => true | Some _ => false end) ie).
+Proof.
+  intros Hok Hi Hb. unfold p_visit_is_bool.
+  assert (Hq : forall x, val r c = Some x -> lit_eqb_val (bool_lit b) x = Bool.eqb (x =? 1)%Z b).
+  { intros x Hx. destruct (row_ok_bool _ _ _ _ _ Hok Hi Hb Hx) as [-> | ->]; destruct b; reflexivity. }
+  destruct (snd ip) as [rc|rc| |rc]; try discriminate; intros [= <-]; (split; [intro n3|intros ->]);
+    apply sound_tv_leaf; destruct (val r c) as [x|] eqn:Ex; cbn [bool_of_val qmatch]; rewrite ?is_true_some; intros;
+    try reflexivity; try discriminate; rewrite ?(Hq x eq_refl); try reflexivity;
+    destruct (x =? 1)%Z; reflexivity.
+Qed.
+
+(* ---- scalar functions *)
+Lemma p_visit_scalar_function_sound r c ci ip f arg ie : info c = Some ci -> In ip (ci_parsers ci) ->
+  p_visit_scalar_function c ip f (maybe_scalar arg) = Some ie ->
+  sound_tv r (fn_sem en f (val r c) (eval_term en r arg)) (match val r c with None => true | Some _ => false end) ie.
+Proof.
+  intros Hi Hin. unfold p_visit_scalar_function.
+  assert (Hdef : forall g v, match val r c with Some _ => false | None => true end = false ->
+            fn_sem en g (val r c) (Some v) = Some (is_true (fn_sem en g (val r c) (Some v)))).
+  { intros g v Hn. destruct (val r c) as [x|]; [|discriminate].
+    destruct (fn_sem en g (Some x) (Some v)) as [[|]|] eqn:Ef; try reflexivity. exfalso. exact (Hfn _ _ _ Ef). }
+  destruct (snd ip) as [rc|rc| |rc]; try discriminate.
+  - destruct (maybe_scalar arg) as [[|v]|] eqn:Ea; try discriminate. rewrite (maybe_scalar_some _ _ Ea). cbn [eval_term lit_val].
+    destruct f; try discriminate; intros [= <-]; apply sound_tv_leaf; cbn [qmatch lit_val]; try reflexivity;
+      intros _ Hn; apply Hdef; exact Hn.
+  - destruct (maybe_scalar arg) as [[|v]|] eqn:Ea; try discriminate. rewrite (maybe_scalar_some _ _ Ea). cbn [eval_term lit_val].
+    destruct f; try discriminate; intros [= <-]; apply sound_tv_leaf; cbn [qmatch lit_val]; try reflexivity;
+      intros _ Hn; apply Hdef; exact Hn.
+Qed.
+
+(* ---- x >= a AND x < b fused into one range *)
+Lemma maybe_range_sound r a b ie : maybe_range info a b = Some ie ->
+  range_swap_hit info r (XAnd a b) = false ->
+  sound_tv r (and3 (eval en r a) (eval en r b)) (nulls3 info r a || nulls3 info r b) ie.
+Proof.
+  intros Em Hs. cbn [range_swap_hit] in Hs. rewrite Em in Hs. revert Em Hs. unfold maybe_range.
+  destruct a as [ | opl ll lr | | | | | | | | | | | ]; try discriminate.
+  destruct b as [ | opr rl rr | | | | | | | | | | | ]; try discriminate.
+  destruct (maybe_indexed_column info ll) as [[lc ci]|] eqn:El; [|discriminate].
+  destruct (maybe_indexed_column_some _ _ _ _ El) as [-> Hi].
+  destruct (maybe_column rl) as [rc|] eqn:Erl; [|discriminate].
+  destruct rl as [rc'| |]; try discriminate. injection Erl as ->.
+  destruct (lc =? rc) eqn:Ec; cbn [negb]; [|discriminate]. apply N.eqb_eq in Ec. subst rc.
+  destruct (maybe_scalar lr) as [lv|] eqn:Elv; [|discriminate]. rewrite (maybe_scalar_some _ _ Elv).
+  destruct (maybe_scalar rr) as [rv|] eqn:Erv; [|discriminate]. rewrite (maybe_scalar_some _ _ Erv).
+  cbn [nulls3]. rewrite (col_null_indexed_col r lc ci Hi), orb_diag. cbn [eval eval_term].
+  assert (Hgen : forall lo hi, find_map (fun ip => p_visit_between lc ip lo hi) (ci_parsers ci) = Some ie ->
+            exists i rcq, ie = index_query_with_recheck lc i (QRange lo hi) rcq /\ bnd_is_null lo = false /\ bnd_is_null hi = false).
+  { intros lo hi Ef. destruct (find_map_some _ _ _ Ef) as [ip [_ Hp]]. unfold p_visit_between in Hp.
+    destruct (snd ip) as [rcq|rcq| |rcq]; try discriminate.
+    destruct (bnd_is_null lo); [discriminate|]. destruct (bnd_is_null hi); [discriminate|]. injection Hp as <-.
+    exists (fst ip), rcq. repeat split. }
+  remember (val r lc) as vx eqn:Evx.
+  destruct opl, opr; try discriminate; intros Ef Hs; destruct (Hgen _ _ Ef) as [i [rcq [-> [Hlo Hhi]]]];
+    cbn [bnd_is_null] in Hlo, Hhi;
+    destruct lv as [|lz]; try discriminate; destruct rv as [|rz]; try discriminate;
+    cbn [swapped_pair andb] in Hs;
+    apply sound_tv_leaf; rewrite <- Evx; destruct vx as [x|]; cbn [cmp3 lit_val and3 qmatch above below cmp_holds];
+    intros; try reflexivity; try discriminate;
+    repeat match goal with |- context [(?p <? ?q)%Z] => destruct (Z.ltb_spec p q) end;
+    repeat match goal with |- context [(?p <=? ?q)%Z] => destruct (Z.leb_spec p q) end;
+    try reflexivity; exfalso;
+    repeat match type of Hs with context [(?p <? ?q)%Z] => destruct (Z.ltb_spec p q) end;
+    repeat match type of Hs with context [(?p =? ?q)%Z] => destruct (Z.eqb_spec p q) end;
+    cbn [orb andb] in Hs; try discriminate; lia.
+Qed.
+(* ---- AND / OR / refine *)
+Lemma ie_and_sound r ta tb na nb x y : sound_tv r ta na x -> sound_tv r tb nb y ->
+  sound_tv r (and3 ta tb) (na || nb) (ie_and x y).
+Proof.
+  intros [sa [Ea [HAa HBa]]] [sb [Eb [HAb HBb]]]. exists (SAnd sa sb). unfold ie_and. rewrite Ea, Eb.
+  split; [reflexivity|]. cbn [scalar_query refine_expr opt_combine struth s_needs_recheck].
+  split.
+  - rewrite is_true_and3, HAa, HAb. destruct (refine_expr x), (refine_expr y); cbn [opt_combine opt_true eval];
+      rewrite ?is_true_and3; destruct (struth r sa), (struth r sb); cbn [andb]; try reflexivity;
+      rewrite ?andb_true_r, ?andb_false_r; reflexivity.
+  - destruct (refine_expr x), (refine_expr y); cbn [opt_combine]; try discriminate.
+    intros _ Hrc Hn. apply orb_false_iff in Hrc as [Hra Hrb]. apply orb_false_iff in Hn as [Hna Hnb].
+    rewrite (HBa eq_refl Hra Hna), (HBb eq_refl Hrb Hnb). destruct (struth r sa), (struth r sb); reflexivity.
+Qed.
+
+Lemma ie_refine_sound_l r ta tb na n x e : sound_tv r ta na x -> tb = eval en r e ->
+  sound_tv r (and3 ta tb) n (ie_refine x e).
+Proof.
+  intros [sa [Ea [HAa _]]] ->. exists sa. unfold ie_refine.
+  destruct (refine_expr x) as [rf|] eqn:Er; cbn [scalar_query refine_expr]; (split; [exact Ea|]); (split; [|discriminate]);
+    rewrite is_true_and3, HAa; cbn [opt_true eval]; rewrite ?is_true_and3, ?andb_true_r, ?andb_assoc; reflexivity.
+Qed.
+Lemma ie_refine_sound_r r ta tb nb n y e : sound_tv r tb nb y -> ta = eval en r e ->
+  sound_tv r (and3 ta tb) n (ie_refine y e).
+Proof.
+  intros [sb [Eb [HAb _]]] ->. exists sb. unfold ie_refine.
+  destruct (refine_expr y) as [rf|] eqn:Er; cbn [scalar_query refine_expr]; (split; [exact Eb|]); (split; [|discriminate]);
+    rewrite is_true_and3, HAb; cbn [opt_true eval]; rewrite ?is_true_and3, ?andb_true_r.
+  - destruct (is_true (eval en r e)), (struth r sb), (is_true (eval en r rf)); reflexivity.
+  - apply andb_comm.
+Qed.
+
+Lemma maybe_or_sound r ta tb na nb x y z : sound_tv r ta na x -> sound_tv r tb nb y -> maybe_or x y = Some z ->
+  sound_tv r (or3 ta tb) (na || nb) z.
+Proof.
+  intros [sa [Ea [HAa HBa]]] [sb [Eb [HAb HBb]]]. unfold maybe_or. rewrite Ea, Eb.
+  destruct (refine_expr x) eqn:Erx; [discriminate|]. destruct (refine_expr y) eqn:Ery; [discriminate|]. intros [= <-].
+  exists (SOr sa sb). split; [reflexivity|]. cbn [scalar_query refine_expr opt_true struth s_needs_recheck]. split.
+  - rewrite is_true_or3, HAa, HAb. cbn [opt_true]. rewrite !andb_true_r. reflexivity.
+  - intros _ Hrc Hn. apply orb_false_iff in Hrc as [Hra Hrb]. apply orb_false_iff in Hn as [Hna Hnb].
+    rewrite (HBa eq_refl Hra Hna), (HBb eq_refl Hrb Hnb). destruct (struth r sa), (struth r sb); reflexivity.
+Qed.
+
+(* a negation over a NULL-valued leaf is in particular a NULL-valued leaf *)
+Lemma neg_over_null_nulls3 r e : neg_over_null info r e = true -> nulls3 info r e = true.
+Proof.
+  induction e as [c|op l rt|neg t lo hi|neg t items|t|t|x IH|x IH|x IH|a IHa b IHb|a IHa b IHb|f t arg|k];
+    cbn [neg_over_null nulls3]; try discriminate; try tauto.
+  - destruct op; try discriminate; tauto.
+  - destruct neg; [tauto | discriminate].
+  - destruct neg; [tauto | discriminate].
+  - intro H. apply orb_true_iff in H as [H|H]; apply orb_true_iff; [left; apply IHa | right; apply IHb]; exact H.
+  - intro H. apply orb_true_iff in H as [H|H]; apply orb_true_iff; [left; apply IHa | right; apply IHb]; exact H.
+Qed.
+
+(* the main lemma: whatever visit_node returns means, row by row, what the SQL predicate means - outside
+   the two finding classes *)
+Lemma visit_node_sound r : row_ok info r = true -> forall e depth ie,
+  visit_node info e depth = Ok (Some ie) ->
+  neg_over_null info r e = false -> range_swap_hit info r e = false ->
+  sound_tv r (eval en r e) (nulls3 info r e) ie.
+Proof.
+  intros Hok.
+  induction e as [c|op l rt|neg t lo hi|neg t items|t|t|x IH|x IH|x IH|a IHa b IHb|a IHa b IHb|f t arg|k];
+    intros depth ie; rewrite visit_node_unfold; (destruct (MAX_DEPTH <=? depth); [discriminate|]);
+    cbn [neg_over_null range_swap_hit nulls3 eval].
+  - (* bare column *) intros [= E] _ _. unfold visit_column in E.
+    destruct (info c) as [ci|] eqn:Hi; [|discriminate]. destruct (ci_bool ci) eqn:Hb; [|discriminate].
+    destruct (find_map_some _ _ _ E) as [ip [Hin Hp]].
+    rewrite (col_null_indexed_col r c ci Hi).
+    exact (proj2 (p_visit_is_bool_sound r c ci ip true ie Hok Hi Hb Hp) eq_refl).
+  - (* comparison *) destruct op.
+    + intros [= E] _ _. apply visit_comparison_sound; [discriminate | exact E].
+    + intros E Hn _. rewrite visit_comparison_noteq in E. rewrite <- not3_cmp_eq.
+      eapply negate_if_true_sound; [|exact Hn|exact E].
+      intros ie0 E0. apply visit_comparison_sound; [discriminate | exact E0].
+    + intros [= E] _ _. apply visit_comparison_sound; [discriminate | exact E].
+    + intros [= E] _ _. apply visit_comparison_sound; [discriminate | exact E].
+    + intros [= E] _ _. apply visit_comparison_sound; [discriminate | exact E].
+    + intros [= E] _ _. apply visit_comparison_sound; [discriminate | exact E].
+  - (* BETWEEN *) unfold visit_between.
+    destruct (maybe_indexed_column info t) as [[c ci]|] eqn:Et; [|discriminate].
+    destruct (maybe_indexed_column_some _ _ _ _ Et) as [-> Hi].
+    destruct (maybe_scalar lo) as [lv|] eqn:El; [|discriminate]. rewrite (maybe_scalar_some _ _ El).
+    destruct (maybe_scalar hi) as [hv|] eqn:Eh; [|discriminate]. rewrite (maybe_scalar_some _ _ Eh).
+    rewrite (col_null_indexed_col r c ci Hi). cbn [eval_term].
+    assert (Hleaf : forall ie0, find_map (fun ip => p_visit_between c ip (BIncl lv) (BIncl hv)) (ci_parsers ci) = Some ie0 ->
+              sound_tv r (and3 (cmp3 OGtEq (val r c) (lit_val lv)) (cmp3 OLtEq (val r c) (lit_val hv)))
+                       (match val r c with None => true | Some _ => false end) ie0).
+    { intros ie0 E0. destruct (find_map_some _ _ _ E0) as [ip [Hin Hp]]. exact (p_visit_between_sound r c ci ip lv hv ie0 Hi Hin Hp). }
+    destruct neg; intros E Hn _.
+    + eapply negate_if_true_sound; [exact Hleaf | exact Hn | exact E].
+    + eapply negate_if_false_sound; [exact Hleaf | exact E].
+  - (* IN *) unfold visit_in_list.
+    destruct (maybe_indexed_column info t) as [[c ci]|] eqn:Et; [|discriminate].
+    destruct (maybe_indexed_column_some _ _ _ _ Et) as [-> Hi].
+    destruct (maybe_scalar_list items) as [vs|] eqn:Ei; [|discriminate]. rewrite (maybe_scalar_list_some _ _ Ei).
+    rewrite (col_null_indexed_col r c ci Hi), map_eval_lits. cbn [eval_term].
+    assert (Hleaf : forall ie0, find_map (fun ip => p_visit_in_list c ip vs) (ci_parsers ci) = Some ie0 ->
+              sound_tv r (inlist3 (val r c) (map lit_val vs)) (match val r c with None => true | Some _ => false end) ie0).
+    { intros ie0 E0. destruct (find_map_some _ _ _ E0) as [ip [Hin Hp]]. exact (p_visit_in_list_sound r c ci ip vs ie0 Hi Hin Hp). }
+    destruct neg; intros E Hn _.
+    + eapply negate_if_true_sound; [exact Hleaf | exact Hn | exact E].
+    + eapply negate_if_false_sound; [exact Hleaf | exact E].
+  - (* IS NULL *) unfold visit_is_null.
+    destruct (maybe_indexed_column info t) as [[c ci]|] eqn:Et; [|discriminate].
+    destruct (maybe_indexed_column_some _ _ _ _ Et) as [-> Hi]. cbn [eval_term]. intros E _ _.
+    eapply negate_if_false_sound; [|exact E]. intros ie0 E0.
+    destruct (find_map_some _ _ _ E0) as [ip [Hin Hp]]. exact (p_visit_is_null_sound r c ip false ie0 Hp).
+  - (* IS NOT NULL *) unfold visit_is_null.
+    destruct (maybe_indexed_column info t) as [[c ci]|] eqn:Et; [|discriminate].
+    destruct (maybe_indexed_column_some _ _ _ _ Et) as [-> Hi]. cbn [eval_term]. intros E _ _.
+    replace (Some (match val r c with None => false | Some _ => true end))
+      with (not3 (Some (match val r c with None => true | Some _ => false end))) by (destruct (val r c); reflexivity).
+    eapply (negate_if_true_sound r _ false); [|reflexivity|exact E]. intros ie0 E0.
+    destruct (find_map_some _ _ _ E0) as [ip [Hin Hp]]. exact (p_visit_is_null_sound r c ip false ie0 Hp).
+  - (* IS TRUE *) intros [= E] _ _. unfold visit_is_bool in E. destruct x as [c| | | | | | | | | | | | ]; try discriminate.
+    destruct (info c) as [ci|] eqn:Hi; [|discriminate]. destruct (ci_bool ci) eqn:Hb; [|discriminate].
+    destruct (find_map_some _ _ _ E) as [ip [Hin Hp]]. cbn [eval].
+    replace (Some (match bool_of_val (val r c) with Some true => true | _ => false end))
+      with (Some (match bool_of_val (val r c) with Some v => Bool.eqb v true | None => false end))
+      by (destruct (bool_of_val (val r c)) as [[|]|]; reflexivity).
+    apply (proj1 (p_visit_is_bool_sound r c ci ip true ie Hok Hi Hb Hp)).
+  - (* IS FALSE *) intros [= E] _ _. unfold visit_is_bool in E. destruct x as [c| | | | | | | | | | | | ]; try discriminate.
+    destruct (info c) as [ci|] eqn:Hi; [|discriminate]. destruct (ci_bool ci) eqn:Hb; [|discriminate].
+    destruct (find_map_some _ _ _ E) as [ip [Hin Hp]]. cbn [eval].
+    replace (Some (match bool_of_val (val r c) with Some false => true | _ => false end))
+      with (Some (match bool_of_val (val r c) with Some v => Bool.eqb v false | None => false end))
+      by (destruct (bool_of_val (val r c)) as [[|]|]; reflexivity).
+    apply (proj1 (p_visit_is_bool_sound r c ci ip false ie Hok Hi Hb Hp)).
+  - (* NOT *) intros E Hn Hs.
+    destruct (visit_node info x (depth + 1)) as [[node|]| |] eqn:Ex; try discriminate.
+    assert (Hn' : neg_over_null info r x = false).
+    { destruct (neg_over_null info r x) eqn:En; [|reflexivity]. rewrite (neg_over_null_nulls3 r x En) in Hn. discriminate. }
+    exact (maybe_not_sound r _ _ _ node ie (IH (depth + 1) node Ex Hn' Hs) Hn E).
+  - (* AND *) intros E Hn Hs. destruct (maybe_range info a b) as [re|] eqn:Er.
+    + injection E as <-. apply maybe_range_sound; [exact Er|]. cbn [range_swap_hit]. rewrite Er. exact Hs.
+    + apply orb_false_iff in Hn as [Hna Hnb]. apply orb_false_iff in Hs as [Hsa Hsb].
+      destruct (visit_node info a (depth + 1)) as [lft| |] eqn:Ea; try discriminate.
+      destruct (visit_node info b (depth + 1)) as [rgt| |] eqn:Eb; try discriminate.
+      injection E as E. destruct lft as [l|], rgt as [rg|]; try discriminate; injection E as <-.
+      * apply ie_and_sound; [exact (IHa _ _ Ea Hna Hsa) | exact (IHb _ _ Eb Hnb Hsb)].
+      * eapply ie_refine_sound_l; [exact (IHa _ _ Ea Hna Hsa) | reflexivity].
+      * eapply ie_refine_sound_r; [exact (IHb _ _ Eb Hnb Hsb) | reflexivity].
+  - (* OR *) intros E Hn Hs. apply orb_false_iff in Hn as [Hna Hnb]. apply orb_false_iff in Hs as [Hsa Hsb].
+    destruct (visit_node info a (depth + 1)) as [lft| |] eqn:Ea; try discriminate.
+    destruct (visit_node info b (depth + 1)) as [rgt| |] eqn:Eb; try discriminate.
+    injection E as E. destruct lft as [l|], rgt as [rg|]; try discriminate.
+    exact (maybe_or_sound r _ _ _ _ l rg ie (IHa _ _ Ea Hna Hsa) (IHb _ _ Eb Hnb Hsb) E).
+  - (* scalar function *) intros [= E] _ _. unfold visit_scalar_fn in E.
+    destruct (maybe_indexed_column info t) as [[c ci]|] eqn:Et; [|discriminate].
+    destruct (maybe_indexed_column_some _ _ _ _ Et) as [-> Hi].
+    destruct (find_map_some _ _ _ E) as [ip [Hin Hp]].
+    rewrite (col_null_indexed_col r c ci Hi). cbn [eval_term].
+    exact (p_visit_scalar_function_sound r c ci ip f arg ie Hi Hin Hp).
+  - discriminate.
+Qed.
+End Translate.
